@@ -31,21 +31,26 @@ OUTSIDE = ["histories longer than 1 (quick) / 2 (thorough) operations between th
 REQUIRED_LABELS = ["same molecule after any history", "parsed object unchanged by the operation", "global generator untouched"]
 
 SK = ["homo-prefix-suffix", "left-terminal-list", "endgroup-initiated", "block-with-connector", "random-copolymer-weighted", "star-three-descriptors"]
+SECOND = [0, 3, 4, 5, 9]  # generate, reaction-graph, atom-graph, mirror, parse-again
 OPS = ["generate", "str", "print-without-extensions", "reaction-graph", "atom-graph", "mirror", "elements", "residues", "generable", "parse-again", "global-rng-draw"]
 
 
 def bounds(tier):
-    return {"skeletons": SK if tier == "thorough" else SK[:4], "history length": 1 if tier == "quick" else 2,
+    return {"skeletons": SK if tier == "thorough" else SK[:4], "history length": "1 (quick); thorough: 1 at N=2 and 2 at N=1 with the second operation from {generate, reaction-graph, atom-graph, mirror, parse-again}",
             "operations": OPS, "units per block": 1 if tier == "quick" else 2}
 
 
 def cases(tier):
     out = []
     sk = [s for s in gendrive.SKELETONS if s["name"] in (SK if tier == "thorough" else SK[:4])]
-    hl = 1 if tier == "quick" else 2
     for s in sk:
         for first in range(len(OPS)):
-            out.append({"name": f"{s['name']}/h{hl}/first={OPS[first]}", "skel": s, "hl": hl, "first": first, "N": 1 if tier == "quick" else 2})
+            out.append({"name": f"{s['name']}/h1/first={OPS[first]}", "skel": s, "hl": 1, "first": first, "N": 1 if tier == "quick" else 2})
+    if tier == "thorough":
+        # two operations between the generations (second one from the state-changing candidates), N = 1
+        for s in sk[:4]:
+            for first in range(len(OPS)):
+                out.append({"name": f"{s['name']}/h2/first={OPS[first]}", "skel": s, "hl": 2, "first": first, "N": 1, "second": SECOND})
     return out
 
 
@@ -149,7 +154,11 @@ def run_case(case, g, tier, res):
         dB0 = digest(g, B)
         sB0, eB0, gB0 = B.generate_string(True), B.generate_string(False), B.generable
         for k in range(hl):
-            op = first if k == 0 else c.fresh_int(f"op{k}", 0, len(OPS) - 1).__index__()
+            if k == 0:
+                op = first
+            else:
+                cand = case.get("second") or list(range(len(OPS)))
+                op = cand[c.fresh_int(f"op{k}", 0, len(cand) - 1).__index__()]
             on = c.fresh_int(f"on{k}", 0, 1).__index__()
             hist.append((op, on))
             st = copy.deepcopy(core_mod._GLOBAL_RNG.bit_generator.state)
